@@ -193,6 +193,18 @@ def _ensure_env():
         os.execve(sys.executable, [sys.executable] + sys.argv, env)
 
 
+def _isolated_replay(prop, case):
+    """replay a self-contained case in a forked child of this (pristine)
+    process: what a fresh `run_check.py --replay` would see, whatever process-
+    wide state earlier replays may have left behind"""
+    from mc.forktree import run_isolated
+
+    out = run_isolated(prop.replay, case)
+    if isinstance(out, tuple) and out and out[0] == "HARNESS-ERROR":
+        raise RuntimeError(out[1])
+    return out
+
+
 def main(argv=None):
     global _PROP
     ap = argparse.ArgumentParser()
@@ -236,7 +248,9 @@ def main(argv=None):
             (res.merge(r) if st == "ok" else errors.append(r))
     else:
         ctx = mp.get_context("fork")
-        with ctx.Pool(min(args.nproc, len(tasks))) as pool:
+        # FRESH_WORKER_PER_TASK: every task starts in a process forked from this
+        # one, which has parsed nothing (checks about process-wide state)
+        with ctx.Pool(min(args.nproc, len(tasks)), maxtasksperchild=1 if getattr(prop, "FRESH_WORKER_PER_TASK", False) else None) as pool:
             for st, r in pool.imap_unordered(_worker_run, tasks, chunksize=1):
                 if st == "ok":
                     res.merge(r)
@@ -254,7 +268,7 @@ def main(argv=None):
         if e.get("status") != "known":
             continue
         try:
-            vs = prop.replay(e["witness"])
+            vs = _isolated_replay(prop, e["witness"])
         except Exception as ex:  # witness no longer replayable = harness problem
             print("HARNESS-ERROR property=%s witness %s: %r" % (prop.ID, e["id"], ex))
             return 2
@@ -293,7 +307,7 @@ def main(argv=None):
     for sig, vs in by_sig.items():
         v = vs[0]
         try:
-            again = prop.replay(v["case"])
+            again = _isolated_replay(prop, v["case"])
         except Exception as ex:
             print("HARNESS-ERROR property=%s replay raised %r for %s" % (prop.ID, ex, sig))
             return 2
@@ -302,6 +316,7 @@ def main(argv=None):
                 "HARNESS-ERROR property=%s violation %s did not reproduce on replay"
                 % (prop.ID, sig)
             )
+            print("  replay gave: %s\n  detail: %s\n  case: %s" % ([a["sig"] for a in again], v["detail"][:1500], json.dumps(v["case"], default=str)[:1500]))
             return 2
         nviol += 1
         os.makedirs(os.path.join(REPLAY_DIR, prop.ID), exist_ok=True)
